@@ -121,6 +121,8 @@ fn constraint_text(c: &Case) -> String {
     let ext = if c.ext { ", ..." } else { "" };
     match c.form.as_str() {
         "single" => format!("({}{ext})", r(&c.ranges[0])),
+        // the element in parentheses of its own (X.680 50.1: Elements ::= ... | "(" ElementSetSpec ")"): the same constraint
+        "paren" => format!("(({}){ext})", r(&c.ranges[0])),
         // the same set written with excluded endpoints (X.680 51.4.2): `(l-1)<..h`, `l..<(h+1)`
         "open-lo" | "open-hi" | "open-both" => {
             let (l, h) = (c.ranges[0].0.unwrap(), c.ranges[0].1.unwrap());
@@ -291,6 +293,20 @@ impl Prop for C06 {
         for (l, h) in [(-5i128, 300i128), (0, 70000), (-129, 127), (0, 255), (0, 256), (-128, 127), (0, 1i128 << 32), (-(1i128 << 31), (1i128 << 31) - 1), (5, 5)] {
             for ctx in ["template-instance", "template-instance-component"] {
                 out.push(Case { ranges: vec![(Some(l), Some(h))], form: "single".into(), ext: false, ctx: ctx.into(), x: None });
+            }
+        }
+        // the range in parentheses of its own, with and without marker
+        for lo in b.iter() {
+            for hi in b.iter() {
+                if lo > hi {
+                    continue;
+                }
+                for ext in [false, true] {
+                    for ctx in ["assign", "component", "seqof"] {
+                        out.push(Case { ranges: vec![(Some(*lo), Some(*hi))], form: "paren".into(), ext, ctx: ctx.into(), x: None });
+                    }
+                    out.push(Case { ranges: vec![(Some(*lo), Some(*hi))], form: "paren".into(), ext, ctx: "default".into(), x: Some(*lo) });
+                }
             }
         }
         // finite ranges written with excluded endpoints
